@@ -8,5 +8,6 @@ CONSTANTS
   MaxWedged = 1
   MaxBurst = 1
   MaxHold = 1
+  MaxSick = 0
   Depth = 8
 CHECK_DEADLOCK FALSE
